@@ -16,8 +16,9 @@
 (* The spec action is re-executed on the recorded arguments.  Clauses:        *)
 (*   C11.SentIsSum / C11.SentInBounds  on the code's values only.  The        *)
 (*       verdict line's `deviations` names the deviation of PowerManager.tla  *)
-(*       that fired for this very step, and only if the code sent and         *)
-(*       reported exactly what the transcription did.                         *)
+(*       (the design before /repo 52a89e3) if, for this very step, the OLD    *)
+(*       design's cause predicate holds and the code sent and reported        *)
+(*       exactly what the OLD design's transcription does.                    *)
 (*   DIS.*  code differs from the transcription (not a property clause)       *)
 (*   OBS.*  informational                                                     *)
 EXTENDS PowerManager
@@ -37,14 +38,20 @@ CheckD(ok, clause, detail, devs) ==
 SysOf(r) == [has |-> r.has, lo |-> r.lo, hi |-> r.hi, xlo |-> r.xlo, xhi |-> r.xhi]
 QOf(r) == [who |-> r.who, pref |-> r.pref, lo |-> r.lo, hi |-> r.hi]
 
+\* the step r is a bounds update on which the design BEFORE the repair drops the unchanged group's
+\* target (evaluated on the spec state before the step), and the code did exactly that
+OldDesignDeviation(r) ==
+    /\ r.a = "bounds"
+    /\ LET x == CalcTarget("none", NoQ, SysOf(r), FALSE, FALSE)
+           sentOld == Combine(x, FALSE)
+       IN /\ DevUnchangedOf([kind |-> "none", must |-> FALSE, r |-> x.r, o |-> x.o], x.R.m, x.O.m)
+          /\ r.obs.req = (IF sentOld = None THEN <<>> ELSE <<sentOld>>)
+          /\ r.obs.rr = x.R.m /\ r.obs.ro = x.O.m
+
 \* evaluated in the step: primed variables = spec state after the re-executed action
-ObsChecks(o, a) ==
+ObsChecks(o, a, olddev) ==
     LET expSent == IF last'.sent = None THEN <<>> ELSE <<last'.sent>>
-        same == /\ o.req = expSent
-                /\ (o.nr > 0 => o.rr = rep'.r)
-                /\ (o.no > 0 => o.ro = rep'.o)
-        devs == IF same /\ ~Fixed /\ DevUnchangedOf(last', R'.m, O'.m)
-                THEN <<"Dev_UnchangedGroupDroppedOnBoundsUpdate">> ELSE <<>>
+        devs == IF olddev THEN <<"Dev_UnchangedGroupDroppedOnBoundsUpdate">> ELSE <<>>
         reports == a # "tick"
     IN /\ \A i \in 1..Len(o.req) :
             /\ CheckD(SentIsSumOf(o.req[i], o.rr, o.ro), "C11.SentIsSum",
@@ -65,6 +72,10 @@ ObsChecks(o, a) ==
                            <<"actor", k, "code", o.rb[k], "transcription", eb>>)
                   /\ Check(<<o.ob[k][1], o.ob[k][2]>> = eo, "DIS.OperatingPointBounds",
                            <<"actor", k, "code", o.ob[k], "transcription", eo>>)
+       \* informational (vacuity guard of the repaired branch): a bounds update changed one group's
+       \* target only and the other group's current target had to be substituted
+       /\ Check(~DevUnchangedOf(last', R'.m, O'.m), "OBS.UnchangedGroupSubstituted",
+                <<"no_shift", last'.r, "shift", last'.o, "sent", o.req>>)
        \* informational: nothing was sent although the request in force lies outside the new bounds
        /\ Check(~(a = "bounds" /\ o.req = <<>> /\ lastReq # None /\ ~SentInBoundsOf(lastReq, sys')),
                 "OBS.RequestInForceOutsideNewBounds", <<"in force", lastReq, "bounds", sys'.lo, sys'.hi>>)
@@ -94,7 +105,7 @@ HistStep ==
           ELSE IF r.a = "result" THEN Result(r.k)
           ELSE IF r.a = "tick" THEN Tick
           ELSE FALSE
-       /\ ObsChecks(r.obs, r.a)
+       /\ ObsChecks(r.obs, r.a, OldDesignDeviation(r))
        /\ lastReq' = IF r.obs.req = <<>> THEN lastReq ELSE r.obs.req[Len(r.obs.req)]
     /\ l' = l + 1 /\ UNCHANGED tid
     /\ (l' > Len(Tr.steps)) => Done
